@@ -1005,6 +1005,8 @@ class SceneMachine(Machine):
         c.kept = []
         c.kept_pm = []
         c.kept_bm = []
+        c.mut_since = {}
+        c.seen_channels = set()
         c.observed = False
         c.mutated_after_obs = False
         c.fault_fired = 0
@@ -1041,6 +1043,9 @@ class SceneMachine(Machine):
         if k == "observe":
             ch, which = op["channel"], op["which"]
             how, val = self._compare(c, env, ch, which, "observe")
+            for mk in c.mut_since.pop(ch, []):
+                env.stats.add("mutator_then_channel", "%s>%s>%s" % (mk, ch, "warm" if ch in c.seen_channels else "cold"))
+            c.seen_channels.add(ch)
             if op.get("twice") or how == "fault":
                 # an observation repeated immediately (after a raise / an interruption) must behave like the first
                 h2, v2 = self._compare(c, env, ch, which, "repeated observe")
@@ -1093,6 +1098,10 @@ class SceneMachine(Machine):
             apply_spec(c.spec, dict(op, op="b.set"))
         if out != "noop":
             self._touch(c)
+            for ch in ("ray", "plasma.fields", "beam.density", "beam.direction", "att.density", "laser.materials"):
+                lst = c.mut_since.setdefault(ch, [])
+                if k not in lst and len(lst) < 6:
+                    lst.append(k)
         env.event(k, out.split(":")[0], op.get("attr", ""))
         self._state(c, env, k + ":" + str(op.get("attr", "")))
         return out
